@@ -8,6 +8,17 @@ from .engine import Forks, EngineError
 
 
 class Stage2Intrinsics(NumIntrinsics):
+    def go_stmt(self, eng, st, fr, callee, args, ins):
+        """the stage-2 goroutine of parseMessage's asynchronous branch: executed under ONE schedule, the sequential one
+        (stage 1 runs to its end first, the goroutine runs when the spawner reaches wg.Wait). That the outcome is the same
+        under every other interleaving is lemma Q1 (E3, C07)."""
+        name = callee.name or ""
+        if not name.startswith("(*%s.internalParsedJson).parseMessage$" % PKG):
+            return None
+        self.used.add("schedule: stage-2 goroutine run at wg.Wait (sequential schedule; all others by Q1)")
+        st.notes["go_deferred"] = list(st.notes.get("go_deferred", ())) + [(callee, list(args))]
+        return []
+
     def _find_quote(self, eng, st, bs, start=1):
         """fork over the position of the first '"' at or after start (escape-free strings only).
         returns list of (state, j)"""
@@ -58,6 +69,17 @@ class Stage2Intrinsics(NumIntrinsics):
         super()._register()
         reg = self.reg
         H = PKG + "."
+
+        @reg("(*sync.WaitGroup).Wait")
+        def wg_wait(eng, st, fr, args, ins):
+            q = list(st.notes.get("go_deferred", ()))
+            if q:
+                callee, cargs = q.pop(0)
+                st.notes["go_deferred"] = q
+                if q:
+                    raise EngineError("more than one deferred goroutine at wg.Wait")
+                return eng.do_call(st, fr, callee, cargs, None, ins)
+            return None
 
         @reg(H + "parseStringSimdValidateOnly")
         def validate(eng, st, fr, args, ins):
